@@ -195,6 +195,16 @@ class Forall:
         self._frozen = _b(b)
 
         self._inst = {}
+        self._idx_ph = None
+
+    def index_terms_at(self, t, collector):
+        """index terms of the instance at t, from the (once computed) index terms of the frozen body"""
+        if self._idx_ph is None:
+            self._idx_ph = collector(self._frozen)
+        out = []
+        for it in self._idx_ph:
+            out.append(z3.simplify(z3.substitute(it, (self._ph, t))))
+        return out
 
     def raw(self, t):
         return z3.substitute(self._frozen, (self._ph, t))
@@ -212,8 +222,30 @@ class Via:
     """Cut rule: `facts` are proved from the path condition, `goal` from the facts alone (small nonlinear VC)."""
 
     def __init__(self, facts, goal):
-        self.facts = [_b(f) for f in facts]
+        self.raw_facts = [f if isinstance(f, Via) else _b(f) for f in facts]      # a fact may itself be a cut
+        self.facts = [f.goal if isinstance(f, Via) else f for f in self.raw_facts]
         self.goal = _b(goal)
+
+
+def via_leaves(v):
+    """leaf facts of a (nested) cut: proved from the path condition"""
+    out = []
+    for f in v.raw_facts:
+        if isinstance(f, Via):
+            out.extend(via_leaves(f))
+        else:
+            out.append(f)
+    return out
+
+
+def via_cuts(v):
+    """the small VCs `facts => goal` of a (nested) cut, innermost first"""
+    out = []
+    for f in v.raw_facts:
+        if isinstance(f, Via):
+            out.extend(via_cuts(f))
+    out.append((v.facts, v.goal))
+    return out
 
 
 def flatten_goal(goal):
